@@ -18,6 +18,10 @@ PovmSet(n) ==
       [] n = "Pmix" -> <<QPovm("z"), QPovm("p3"), QPovm("p4")>>                           \* mixed outcome counts
       [] n = "P2" -> <<QPovm("x"), QPovm("z")>>                                          \* not complete
       [] n = "Pu" -> <<QPovm("u2"), QPovm("p4"), QPovm("x")>>
+      \* uniform outcome counts 3 and 4: rotated copies (Heisenberg picture) of the catalogue POVMs
+      [] n = "P33" -> <<QPovm("p3"), [k \in 1..3 |-> HeisenbergH(QPovm("p3")[k], QGate("h"), PauliNu)],
+                        [k \in 1..3 |-> HeisenbergH(QPovm("p3")[k], QGate("x90"), PauliNu)]>>
+      [] n = "P44" -> <<QPovm("p4"), [k \in 1..4 |-> HeisenbergH(QPovm("p4")[k], QGate("h"), PauliNu)]>>
 
 AllScheds(type, ns, np) ==
     CASE type = "qst"   -> [j \in 1..np |-> <<1, j>>]
@@ -60,9 +64,9 @@ NormalisedOnConstraint == tomo.para =>
 \* physical candidates from the exact catalogue (the circuit side of the library clips and renormalises,
 \* so it is compared on physical objects only)
 PhysNames == CASE tomo.type = "qst" -> {"z0", "x1", "y0", "mix1", "mix2"}
-               [] tomo.type = "povmt" -> (CASE tomo.m = 2 -> {"x", "z", "u2"} [] tomo.m = 3 -> {"p3"} [] tomo.m = 4 -> {"p4"})
+               [] tomo.type = "povmt" -> (CASE tomo.m = 2 -> {"x", "z", "u2"} [] tomo.m = 3 -> {"p3"} [] tomo.m = 4 -> {"p4"} [] tomo.m = 5 -> {"p5"})
                [] tomo.type = "qpt" -> {"h", "x90", "ad", "dep", "s"}
-               [] tomo.type = "qmpt" -> (CASE tomo.m = 2 -> {"mz", "mx"} [] tomo.m = 3 -> {"m3"} [] tomo.m = 4 -> {"m4"})
+               [] tomo.type = "qmpt" -> (CASE tomo.m = 2 -> {"mz", "mx"} [] tomo.m = 3 -> {"m3"} [] tomo.m = 4 -> {"m4"} [] tomo.m = 5 -> {"m5"})
 PhysObj(n) == CASE tomo.type = "qst" -> QState(n) [] tomo.type = "povmt" -> QPovm(n)
                 [] tomo.type = "qpt" -> QGate(n) [] tomo.type = "qmpt" -> QMProcess(n)
 PhysVar(n) == LET o == PhysObj(n) IN
